@@ -193,11 +193,22 @@ pub fn field_variants(t: &mut Tape, plan: &XzPlan) -> Vec<(XzPlan, &'static str,
                 names.push(format!("block{}.usize", bi));
             }
         }
-        for name in names {
+        for name in names.iter() {
             for tenth in [0x02u8, 0x7E, 0x01] {
                 let mut p = plan.clone();
                 p.ov_overlong = Some((name.clone(), tenth));
                 v.push((p, "vli.overlong", format!("{} written in ten bytes, tenth byte 0x{:02x}", name, tenth)));
+            }
+        }
+        // the same integers with their TRUE value but not in the shortest form (one,
+        // two or as many extra zero groups as nine bytes allow). The field still
+        // agrees with the data: whatever the verdict is, it must not depend on
+        // anything else (C13 takes these as inputs; here Ok is confirmed by the judge)
+        for name in names.iter() {
+            for extra in [1u8, 2, 8] {
+                let mut p = plan.clone();
+                p.ov_nonminimal = Some((name.clone(), extra));
+                v.push((p, "vli.nonminimal", format!("{} written with {} superfluous zero group(s)", name, extra)));
             }
         }
     }
@@ -599,6 +610,7 @@ impl Property for C06 {
                 "footer.backward" => "probe.substituted_backward_size",
                 "index.records_pair" => "probe.two_index_records_wrong_sums_preserved",
                 "vli.overlong" => "probe.integer_spelt_in_ten_bytes",
+                "vli.nonminimal" => "probe.integer_not_in_shortest_form",
                 "index.count" | "index.unpadded" | "index.uncompressed" | "index.pad" | "index.crc32" => "probe.substituted_index_field",
                 "block.csize" | "block.usize" | "block.size_byte" => "probe.substituted_declared_block_size",
                 "block.pad" | "block.header_pad" => "probe.substituted_padding",
